@@ -164,3 +164,118 @@ Proof.
   - intros i Hi. cbn in Hi. destruct Hi as [<-|[<-|[<-|[]]]]; vm_compute; reflexivity.
   - split; vm_compute; reflexivity.
 Qed.
+
+(* ================================================================ the finer-grained model (C13/ModelFine.v) *)
+(* A broadcast round is begin / per-peer serve / drop / per-reply handling, the merger is take / apply, and
+   all of these interleave freely with write / commit / abort / external ReceiveValue. The model mirrors crdt.go
+   after fix 0c26be54 (needBroadcastGen). The theorems are proved for it directly (C13/ProofsFine.v). *)
+From PGV Require Import C13.ModelFine C13.ProofsFine.
+
+Section FineGrained.
+  Variables (T A : Type).
+  Variable init : T.
+  Variable write : Z -> A -> T -> T.
+  Variable merge : T -> T -> T.
+  Variable peers : Z -> list Z.
+  Variable ok : T -> Prop.
+  Variable le : T -> T -> Prop.
+  Variable wpre : Z -> A -> T -> Prop.
+  Hypothesis ok_init : ok init.
+  Hypothesis le_refl : forall x, ok x -> le x x.
+  Hypothesis le_trans : forall x y z, le x y -> le y z -> le x z.
+  Hypothesis init_least : forall x, ok x -> le init x.
+  Hypothesis merge_ok : forall x y, ok x -> ok y -> ok (merge x y).
+  Hypothesis merge_ub_l : forall x y, ok x -> ok y -> le x (merge x y).
+  Hypothesis merge_ub_r : forall x y, ok x -> ok y -> le y (merge x y).
+  Hypothesis merge_lub : forall x y z, ok x -> ok y -> ok z -> le x z -> le y z -> le (merge x y) z.
+  Hypothesis write_ok : forall i a x, ok x -> wpre i a x -> ok (write i a x).
+  Hypothesis write_infl : forall i a x, ok x -> wpre i a x -> le x (write i a x).
+
+  Notation fvalid := (fvalid T A init write merge peers ok wpre).
+  Notation fxrun := (fxrun T A init write merge peers).
+
+  (* every payload read at the start of a round, every reply a peer sends when it serves a call, every reply
+     to an external ReceiveValue is below the committed/injected states *)
+  Theorem fine_inflight_never_broadcast : forall evs e p, fvalid (evs ++ [e]) ->
+    In p (fsent T A (fst (fxrun evs)) e) -> ok p /\ fbelow T ok le (snd (fxrun evs)) p.
+  Proof. eapply fine_sent_below; eassumption. Qed.
+
+  (* ... and so are, at all times, the stable value of every node, everything waiting to be merged (queue and
+     what the merger holds), the payload and the pending replies of every round in flight, and the value of
+     every node with no section in flight *)
+  Theorem fine_aborted_disappears : forall evs i, fvalid evs ->
+    let st := fst (fxrun evs) in let g := snd (fxrun evs) in
+    (f_hasold (st i) = false -> fbelow T ok le g (f_value (st i))) /\
+    (forall v, In v (pend T (st i)) -> fbelow T ok le g v) /\
+    (forall v, In v (round_vals T (st i)) -> fbelow T ok le g v) /\ fbelow T ok le g (fstable (st i)).
+  Proof. eapply fine_nothing_uncommitted_survives; eassumption. Qed.
+
+  (* everything a node received stays under every upper bound of its value, its queue and what its merger holds *)
+  Theorem fine_received_never_lost : forall evs i v, fvalid evs ->
+    let st := fst (fxrun evs) in let g := snd (fxrun evs) in
+    In v (h_recvd g i) -> forall y, fcovers T ok le (f_value (st i)) (pend T (st i)) y -> le v y.
+  Proof. eapply fine_received_never_lost; eassumption. Qed.
+
+  (* the repair 0c26be54 as a theorem: after a writing commit of node i the owed count stays len(peerIds),
+     whatever happens afterwards — replies of a round that was in flight at the commit, serves, other commits,
+     merges — as long as node i does not begin a new round *)
+  Theorem commit_during_round_still_owed : forall evs i evs', fvalid evs ->
+    f_hasold (fst (fxrun evs) i) = true -> Forall (not_begin T A i) evs' ->
+    f_need (frun T A init write merge peers (evs ++ [FCommit i] ++ evs') i) = List.length (peers i).
+  Proof. eapply commit_during_round_still_owed; eassumption. Qed.
+
+  (* when rounds reach every other peer (no call fails), the owed count of a node can be 0 only if every other
+     peer has received a state above the node's last committed one *)
+  Theorem fine_owed_after_commit : (forall i, NoDup (peers i)) -> forall evs i, fvalid evs -> ffull T A peers evs ->
+    f_need (fst (fxrun evs) i) = 0%nat ->
+    forall j, In j (others peers i) -> fdelivered T init le (snd (fxrun evs)) i j.
+  Proof. intros Hnd. eapply fine_owed_after_commit; eassumption. Qed.
+
+  (* quiescent convergence *)
+  Theorem fine_eventual_delivery : (forall i, NoDup (peers i)) -> forall N,
+    (forall i j, In i N -> In j N -> i <> j -> In j (others peers i)) ->
+    forall evs, fvalid evs -> finternal T A peers N evs ->
+    let st := fst (fxrun evs) in let g := snd (fxrun evs) in
+    (forall i, In i N -> f_hasold (st i) = false /\ pend T (st i) = [] /\
+                         (f_need (st i) = 0%nat \/ unserved T peers g i = [])) ->
+    forall i j, In i N -> In j N -> le (f_value (st i)) (f_value (st j)).
+  Proof. intros Hnd N Hmesh. eapply fine_quiescent_converged; eassumption. Qed.
+End FineGrained.
+
+Print Assumptions fine_inflight_never_broadcast.
+Print Assumptions fine_aborted_disappears.
+Print Assumptions fine_received_never_lost.
+Print Assumptions commit_during_round_still_owed.
+Print Assumptions fine_owed_after_commit.
+Print Assumptions fine_eventual_delivery.
+
+(* non-vacuity (GCounter payload, two nodes, peer lists without self): node 0 commits +1, starts a round,
+   commits +2 while the round is in flight; the stale reply does not consume the new count (it stays 1);
+   a second round delivers; afterwards the state is quiescent in the sense of fine_eventual_delivery and
+   both replicas read 3 *)
+Definition fine_example : list (fevent gc Z) :=
+  [FWrite 0 1; FCommit 0; FBegin 0 [1]; FWrite 0 2; FCommit 0; FServe 0 1; FReply 0;
+   FTake 1; FApply 1; FTake 0; FApply 0; FBegin 0 [1]; FServe 0 1; FReply 0; FTake 1; FApply 1; FTake 0; FApply 0].
+
+Example fine_nonvacuous :
+  let P := mesh_peers 2 false false in
+  fvalid gc Z gc_init gc_write gc_merge P gc_wf gc_wpre fine_example /\
+  finternal gc Z P (mesh_nodes 2) fine_example /\
+  f_need (frun gc Z gc_init gc_write gc_merge P (firstn 7 fine_example) 0) = 1%nat /\
+  (let st := fst (fxrun gc Z gc_init gc_write gc_merge P fine_example) in
+   let g := snd (fxrun gc Z gc_init gc_write gc_merge P fine_example) in
+   (forall i, In i (mesh_nodes 2) -> f_hasold (st i) = false /\ pend gc (st i) = [] /\
+                                    (f_need (st i) = 0%nat \/ unserved gc P g i = [])) /\
+   map (fun i => gc_read (f_value (st i))) (mesh_nodes 2) = [3; 3]).
+Proof.
+  cbn zeta. split; [|split; [|split; [|split]]].
+  - unfold ProofsFine.fvalid, fine_example. cbn [fvalid_from]. repeat split; vm_compute; try reflexivity; intros; discriminate.
+  - unfold fine_example, finternal.
+    repeat (apply Forall_cons; [split; [vm_compute; tauto|split; vm_compute; first [reflexivity|exact I]]|]).
+    apply Forall_nil.
+  - vm_compute. reflexivity.
+  - intros i Hi. cbn in Hi. destruct Hi as [<-|[<-|[]]]; (split; [vm_compute; reflexivity|split; [vm_compute; reflexivity|]]).
+    + left. vm_compute. reflexivity.
+    + left. vm_compute. reflexivity.
+  - vm_compute. reflexivity.
+Qed.
